@@ -19,6 +19,7 @@ import (
 	"math"
 	"math/rand"
 	"os"
+	"os/exec"
 	"strconv"
 	"strings"
 	"time"
@@ -827,8 +828,26 @@ func main() {
 		fmt.Fprintf(out, "value.str\t%d:d%d\t%s\t%s\n", *seed, i, encG(g, false), res)
 	}
 
-	if *nE2e > 0 {
+	// end to end: every instance of the system keeps memory until the process ends, so large runs are split over
+	// child processes of at most e2eChunk cases (child k uses seed + 7919*k; the case ids carry that seed)
+	const e2eChunk = 300
+	if *nE2e > 0 && *nE2e <= e2eChunk {
 		endToEnd(r, out, *seed, *nE2e)
+	} else if *nE2e > 0 {
+		out.Flush()
+		for k, left := 1, *nE2e; left > 0; k, left = k+1, left-e2eChunk {
+			n := left
+			if n > e2eChunk {
+				n = e2eChunk
+			}
+			cmd := exec.Command(os.Args[0], "-seed", strconv.FormatInt(*seed+7919*int64(k), 10), "-rt", "0", "-tv", "0", "-str", "0", "-e2e", strconv.Itoa(n))
+			cmd.Stdout = os.Stdout
+			cmd.Stderr = os.Stderr
+			if err := cmd.Run(); err != nil {
+				fmt.Fprintln(os.Stderr, "end-to-end child failed:", err)
+				os.Exit(3)
+			}
+		}
 	}
 }
 
@@ -909,6 +928,7 @@ func endToEnd(r *rand.Rand, out *bufio.Writer, seed int64, n int) {
 	defer func() {
 		if e != nil {
 			e.StopControllers()
+			e.Atomix.Close()
 		}
 	}()
 	cfgID := configuration.NewID("t1", "devicesim", "1.0.0")
@@ -916,6 +936,7 @@ func endToEnd(r *rand.Rand, out *bufio.Writer, seed int64, n int) {
 	fresh := func() {
 		if e != nil {
 			e.StopControllers()
+			e.Atomix.Close() // the in-memory Atomix node holds a listener and goroutines
 		}
 		e = env.New(0, plugin)
 		e.Topo.AddTarget("t1", "devicesim", "1.0.0", false, false)
